@@ -88,11 +88,10 @@ def obligations(tier, rng):
         for N in ([1, 2, 4] if quick else [1, 2, 3, 4, 5]):
             out.append(ob('C20', 'explain', 'F1/%s/N=%d' % (text(g), N), f=g, N=N, max_paths=20000, wall=600))
     f2 = refsem.depth2(ops, ops, [(0, 1), (1, 2)])
-    if quick:
-        f2 = rng.sample(f2, len(f2) * 10 // 100)
     for f in f2:
         g = atoms_subst(f)
-        out.append(ob('C20', 'explain', 'F2/%s/N=%d' % (text(g), 3 if quick else 4), f=g, N=3 if quick else 4, max_paths=40000, wall=900))
+        for N in ([3] if quick else [2, 3, 4]):
+            out.append(ob('C20', 'explain', 'F2/%s/N=%d' % (text(g), N), f=g, N=N, max_paths=40000, wall=900))
     if not quick:
         for i in range(200):
             f = refsem.gen_formula(rng, 3, ops, [(0, 1), (1, 2)], ('x', 'y'))
